@@ -207,6 +207,17 @@ def fit_vine(df, vtype, trunc, past=None):
                 m.get_likelihood(np.full((1, past.shape[1]), 0.4))
         except Exception:
             pass
+    if past is not None and past.shape == df.shape and list(past.columns) == list(df.columns):
+        # the caller's table object was fitted by another vine earlier and has been edited in place since
+        new = df.copy()
+        try:
+            df.iloc[:, :] = past.to_numpy()
+            with time_limit(90):
+                VineCopula(vtype).fit(df, truncated=trunc)
+        except Exception:
+            pass
+        for c in df.columns:
+            df[c] = new[c].to_numpy()
     with time_limit(90):
         m.fit(df, truncated=trunc)
     return m
@@ -216,6 +227,14 @@ def past_table(rs, ncol, i):
     """the table of an instance's previous life: another dependence pattern and, every second time, another number of columns"""
     k = ncol if i % 2 else (ncol + 1 if ncol < 4 else ncol - 1)
     return random_table(rs, max(2, k), PATTERNS[(i + 3) % 4], nrow=30)
+
+
+def same_shape_past(rs, df, i):
+    """an earlier content of the very same table object: same labels and shape, another dependence pattern"""
+    old = random_table(rs, df.shape[1], PATTERNS[(i + 1) % 4], nrow=len(df))
+    old.columns = df.columns
+    old.index = df.index
+    return old
 
 
 # ---- driving the tree builders with chosen dependence orderings ----------------------------------
